@@ -3,6 +3,7 @@ package c17
 
 import (
 	"fmt"
+	"math"
 	"reflect"
 	"sort"
 	"time"
@@ -23,6 +24,10 @@ type Move struct {
 func moves(n int) []Move {
 	ms := []Move{{K: "GetNext"}, {K: "GetPrevious"}, {K: "HasNext"}, {K: "HasPrevious"}, {K: "ToStart"}, {K: "ToEnd"}, {K: "GetSlot"}, {K: "GetSize"}, {K: "IsEmpty"}}
 	for k := -n - 2; k <= n+2; k++ {
+		ms = append(ms, Move{K: "ToSlot", A: k})
+	}
+	// the ends of the int range and of the narrower widths: arithmetic on the argument must not wrap
+	for _, k := range []int{math.MinInt, math.MinInt + 1, math.MaxInt, math.MaxInt - 1, math.MinInt32, math.MaxInt32, math.MinInt32 - 1, math.MaxInt32 + 1, math.MinInt / 2, math.MaxInt/2 + 1} {
 		ms = append(ms, Move{K: "ToSlot", A: k})
 	}
 	return ms
@@ -529,6 +534,50 @@ func snapshots(r *engine.Rec) {
 						fmt.Sprintf("%+v before %v forward %v", c, before, pairs(fwd)), c)
 				}
 				r.Outcome("Map")
+			})
+		}
+		// Map whose keys include some that Go's == never finds again (not-a-number): such an entry can only be
+		// reached by walking the map, and the iterator still lists it with the value stored under it
+		for _, mut := range []string{"none", "SetValue(new)", "SetValue(existing)", "RemoveAll"} {
+			c := snapCase{"Map with not-a-number keys", n, mut}
+			run(c, func() {
+				m := col.Map[float64, string](N).Make()
+				var before []string
+				for i, k := range mk(n) {
+					key := float64(k)
+					if i%2 == 0 {
+						key = math.NaN()
+					}
+					m.SetValue(key, fmt.Sprint("v", k))
+					before = append(before, fmt.Sprint(key, "=", "v", k))
+				}
+				sort.Strings(before)
+				pairs := func(a []col.AssociationLike[float64, string]) []string {
+					s := []string{}
+					for _, x := range a {
+						s = append(s, fmt.Sprint(x.GetKey(), "=", x.GetValue()))
+					}
+					sort.Strings(s)
+					return s
+				}
+				if len(before) == 0 {
+					before = []string{}
+				}
+				it := m.GetIterator()
+				switch mut {
+				case "SetValue(new)":
+					m.SetValue(5, "new")
+				case "SetValue(existing)":
+					m.SetValue(20, "changed")
+				case "RemoveAll":
+					m.RemoveAll()
+				}
+				fwd, bwd := walk(it)
+				if !reflect.DeepEqual(pairs(fwd), before) || !reflect.DeepEqual(pairs(bwd), before) {
+					r.Violation("iterator of Map with not-a-number keys does not enumerate the collection as it was (mutation "+mut+")",
+						fmt.Sprintf("%+v before %v forward %v backward %v", c, before, pairs(fwd), pairs(bwd)), c)
+				}
+				r.Outcome("Map/NaN")
 			})
 		}
 		r.States++
